@@ -604,7 +604,8 @@ class Context:
     def build_libs(self, libs, timeout=3000):
         """Incremental ninja build of celeritas libraries from /repo's tree."""
         self.ensure_configured()
-        lock = os.path.join(VERIF, "_build", "ninja.lock")
+        os.makedirs(os.path.dirname(BUILD.rstrip("/")) or "/", exist_ok=True)
+        lock = BUILD.rstrip("/") + ".ninja.lock"   # one lock per build directory
         import fcntl
         with open(lock, "w") as lf:
             fcntl.flock(lf, fcntl.LOCK_EX)
